@@ -257,6 +257,31 @@ fn expected_list(conv: &Converter, r: &ScaledRecipe, into: &mut BTreeMap<String,
     }
 }
 
+/// The same, with "which definition does a reference add to" and "is it hidden" taken from the generator's model of
+/// the source text (reference semantics: the LAST definition of that name before the reference) instead of the parsed
+/// relations; the quantities themselves are the recipe's.
+fn expected_list_model(conv: &Converter, r: &ScaledRecipe, model: &serde_json::Value, into: &mut BTreeMap<String, Totals>) -> bool {
+    let Some(ings) = model["ingredients"].as_array() else { return false };
+    if ings.len() != r.ingredients.len() {
+        return false;
+    }
+    for (i, m) in ings.iter().enumerate() {
+        if m["relation"]["type"] != "definition" {
+            continue;
+        }
+        let mods = m["modifiers"].as_str().unwrap_or("");
+        if mods.contains("HIDDEN") || mods.contains("REF") {
+            continue;
+        }
+        let refs = m["relation"]["referenced_from"].as_array().cloned().unwrap_or_default();
+        let qs = std::iter::once(i).chain(refs.iter().filter_map(|j| j.as_u64().map(|j| j as usize))).filter_map(|j| r.ingredients.get(j).and_then(|x| x.quantity.as_ref()));
+        let t = Totals::of(conv, qs);
+        let display = m["alias"].as_str().or(m["name"].as_str()).unwrap_or("").to_string();
+        into.entry(display).or_default().merge(&t);
+    }
+    true
+}
+
 fn recipes(ctx: &mut Ctx, conv: &Converter) {
     let parser = CooklangParser::new(Extensions::all(), conv.clone());
     let n = ctx.budget(4_000, 600_000);
@@ -269,6 +294,7 @@ fn recipes(ctx: &mut Ctx, conv: &Converter) {
         let nrec = r.range(1, 4);
         let mut texts = Vec::new();
         let mut scaled: Vec<ScaledRecipe> = Vec::new();
+        let mut models: Vec<Option<serde_json::Value>> = Vec::new();
         for _ in 0..nrec {
             let spec = g::gen_spec(&mut r, opts);
             let sp = g::spell(&spec, r.next(), feat::ALL, 1);
@@ -280,6 +306,7 @@ fn recipes(ctx: &mut Ctx, conv: &Converter) {
             let s = if r.coin() { rec.default_scale() } else { rec.scale(*r.pick(&[0.5, 2.0, 3.0]), conv) };
             scaled.push(s);
             texts.push(sp.text);
+            models.push(sp.expected);
         }
         // one recipe of the sequence again with the case of every letter flipped: the same names in another case are
         // different ingredients for the list (and for the aisle lookup)
@@ -289,6 +316,7 @@ fn recipes(ctx: &mut Ctx, conv: &Converter) {
                 if res.is_valid() {
                     scaled.push(res.into_output().unwrap().default_scale());
                     texts.push(flipped);
+                    models.push(None);
                     ctx.count("sequences_with_case_flipped_recipe");
                 }
             }
@@ -411,6 +439,26 @@ fn recipes(ctx: &mut Ctx, conv: &Converter) {
             }
         }
         ctx.count_n("list_entries_checked", got.len() as u64);
+        // the same list against the attribution of the source model
+        let mut want_m: BTreeMap<String, Totals> = BTreeMap::new();
+        if models.iter().all(|m| m.is_some()) && scaled.iter().zip(&models).all(|(rec, m)| expected_list_model(conv, rec, m.as_ref().unwrap(), &mut want_m)) {
+            ctx.count("lists_compared_with_source_model");
+            for name in want_m.keys().chain(got.keys()) {
+                match (want_m.get(name), got.get(name)) {
+                    (Some(w), Some(g_)) => {
+                        if let Some(d) = w.diff(g_) {
+                            ctx.violation(&case, "list", "list_totals_differ_from_source_model", format!("{name:?}: {d}"));
+                            ok = false;
+                        }
+                    }
+                    (None, Some(_)) | (Some(_), None) => {
+                        ctx.violation(&case, "list", "list_names_differ_from_source_model", format!("{name:?}: model has it: {}, list has it: {}", want_m.contains_key(name), got.contains_key(name)));
+                        ok = false;
+                    }
+                    _ => {}
+                }
+            }
+        }
         // (d) aisle configurations built from the listed names
         let names: Vec<String> = got.keys().cloned().collect();
         if !names.is_empty() {
